@@ -225,8 +225,8 @@ pub fn run(seed: u64, n: u64) {
             out["revealed_ok"] = json!(revealed_ok);
             let rt = guarded(|| serde_json::to_value(&pres).ok().and_then(|v| serde_json::from_value::<Pres>(v).ok()));
             out["json_roundtrip"] = match rt { Ok(Some(p2)) => vb(&p2, &global, &mats), Ok(None) => json!("PARSE-ERR"), Err(_) => json!("SERIALIZE-PANIC") };
-            // ---- JSON layer
-            if let Some(j0) = guarded(|| serde_json::to_value(&pres).ok()).ok().flatten() {
+            // ---- JSON layer (every other case: identity verification is slow)
+            if let Some(j0) = if i % 2 == 0 { guarded(|| serde_json::to_value(&pres).ok()).ok().flatten() } else { None } {
                 let mut jm: Vec<J> = Vec::new();
                 let mut unparse = 0u32;
                 for (name, m) in json_mutations(&j0) {
